@@ -284,3 +284,47 @@ func VerifC15Sort() {
 	}
 	verifCover("C15/sort/end")
 }
+
+// VerifC15SortLarge: stability, order and permutation on sequences longer than the library's insertion-sort
+// thresholds (12 for sort.Sort's pdqsort, 20 for sort.Stable's blocks), where an unstable or mis-merging sort
+// first shows. Keys are two-valued; a few of them are solver variables, the rest a fixed interleaving.
+func VerifC15SortLarge() {
+	n := verifParam("largen", 14)
+	seq := vSeq()
+	keys := make([]int64, n)
+	for i := 0; i < n; i++ {
+		var k int64
+		if i == 0 || i == n/2 || i == n-1 {
+			k = int64(verifIntRange("k"+verifItoa(int64(i)), 0, 1))
+		} else {
+			k = int64((i + 1) % 2)
+		}
+		keys[i] = k
+		seq.Content = append(seq.Content, vMap(vStr("k"), vInt(verifItoa(k)), vStr("id"), vInt(verifItoa(int64(i)))))
+	}
+	res, err := vEval(vParse("sort_by(.k)"), vDoc(seq))
+	verifAssert(err == nil && res.Len() == 1, "C15/sort-error")
+	if err != nil || res.Len() != 1 {
+		return
+	}
+	out := res.Front().Value.(*CandidateNode)
+	verifAssert(len(out.Content) == n, "C15/sort-length")
+	if len(out.Content) != n {
+		return
+	}
+	used := make([]bool, n)
+	prevK, prevID := int64(0), 0
+	for i := 0; i < n; i++ {
+		id64, _ := parseInt(out.Content[i].Content[3].Value)
+		id := verifConcreteInt(id64, 0, n-1)
+		verifAssert(!used[id], "C15/sort-permutation large")
+		used[id] = true
+		k := keys[id]
+		if i > 0 {
+			verifAssert(prevK <= k, "C15/sort-ordered large")
+			verifAssert(verifImplies(prevK == k, prevID < id), "C15/sort-stable large")
+		}
+		prevK, prevID = k, id
+	}
+	verifCover("C15/sortlarge/end")
+}
